@@ -71,6 +71,12 @@ structure St where
   /-- `Outbound._paused`: the transport of the connection called `pauseProducing()` (send buffer
       full); also set while there is no connection -/
   outPaused : Bool := true
+  /-- `Inbound._paused_subchannels` (subchannels numbered by the harness, kept sorted): consumers that
+      have asked us to stop reading -/
+  inPaused : List Nat := []
+  /-- the connection in use has been told `pauseProducing()` and not `resumeProducing()` since: its
+      transport delivers nothing (no Pong reaches `got_record`) -/
+  readPaused : Bool := false
   pings : List PingRec := []
   nextPing : Nat := 0
   nextConn : Nat := 0
@@ -177,6 +183,27 @@ def mgrInput (b : Bool) (i : Manager.Input) (s : St) : Res :=
   | none => (s, some .noTransition)
   | some (st', outs) => mgrOutputs b outs { s with mgr := st' }
 
+/-! ## `Inbound`: flow control towards the connection (`Inbound._connection` is set and cleared together
+    with `Manager._connection`) -/
+
+def insertNat (k : Nat) : List Nat → List Nat
+  | [] => [k]
+  | x :: xs => if k < x then k :: x :: xs else if k = x then x :: xs else x :: insertNat k xs
+
+/-- `Inbound.subchannel_pauseProducing(sc)` -/
+def subPause (k : Nat) (s : St) : St :=
+  let was := !s.inPaused.isEmpty
+  let s1 := { s with inPaused := insertNat k s.inPaused }
+  if s1.conn.isSome && !was then { s1 with readPaused := true } else s1
+
+/-- `Inbound.subchannel_resumeProducing(sc)`; `subchannel_stopProducing(sc)` has the same body and
+    `subchannel_closed(scid, sc)` ends in it: the subchannel leaves the paused set *whether or not there
+    is a connection*, and the last one to leave resumes the connection if there is one -/
+def subResume (k : Nat) (s : St) : St :=
+  let was := !s.inPaused.isEmpty
+  let s1 := { s with inPaused := s.inPaused.filter (fun x => x != k) }
+  if s1.conn.isSome && was && s1.inPaused.isEmpty then { s1 with readPaused := false } else s1
+
 /-! ## the Manager methods -/
 
 /-- `connector_connection_made(c)` -/
@@ -193,7 +220,9 @@ def connMade (cfg : Cfg) (s0 : St) : Res :=
   -- self.connection_made()
   (mgrInput false .connection_made s2).andThen fun s3 =>
   -- self._connection = c; inbound.use_connection(c); outbound.use_connection(c) (→ resumeProducing)
-  ({ s3 with conn := some c, outConn := some c, outPaused := false, madeAt := s3.now, dropped := false }, none)
+  -- `Inbound.use_connection`: a connection that arrives while some consumer is still paused is paused at once
+  ({ s3 with conn := some c, outConn := some c, outPaused := false, readPaused := !s3.inPaused.isEmpty,
+             madeAt := s3.now, dropped := false }, none)
 
 /-- `connector_connection_lost()` followed by `_stop_using_connection()` -/
 def connLost (cfg : Cfg) (s : St) : Res :=
@@ -201,7 +230,7 @@ def connLost (cfg : Cfg) (s : St) : Res :=
   let r1 : Res := if s.traffic.isSome then ttInput cfg .lost_connection s else (s, none)
   r1.andThen fun s1 =>
   -- _stop_using_connection: cancel the timer, forget the connection
-  let s2 := { s1 with timer := none, conn := none }
+  let s2 := { s1 with timer := none, conn := none, readPaused := false }
   -- outbound.stop_using_connection(): `self._connection.transport.unregisterProducer()`
   match s2.outConn with
   | none => (s2, some .attributeError)
@@ -253,6 +282,8 @@ inductive Op where
   | pause                    -- the connection's transport: `outbound.pauseProducing()`
   | resume                   -- the connection's transport: `outbound.resumeProducing()`
   | stall (n : Nat)          -- the clock jumps `n` ticks at once; a timer that fell due runs late
+  | cpause (k : Nat)         -- the consumer of subchannel `k`: `inbound.subchannel_pauseProducing`
+  | cresume (k : Nat)        -- … `subchannel_resumeProducing` / `subchannel_stopProducing` / `subchannel_closed`
   deriving DecidableEq, Repr
 
 def step (cfg : Cfg) (s : St) : Op → Res
@@ -268,6 +299,8 @@ def step (cfg : Cfg) (s : St) : Op → Res
   | .pause => ({ s with outPaused := true }, none)
   | .resume => ({ s with outPaused := false }, none)
   | .stall n => stall cfg n s
+  | .cpause k => (subPause k s, none)
+  | .cresume k => (subResume k s, none)
 
 /-- run a trace; stops at the first exception -/
 def run (cfg : Cfg) : St → List Op → Res
@@ -330,10 +363,12 @@ def legal (s : St) : Op → Bool
   | .stop => s.mgr != .STOPPING && s.mgr != .STOPPED
   | .reconnecting => s.mgr == .FLUSHING
   | .reconnect => s.mgr == .CONNECTED || s.mgr == .CONNECTING || s.mgr == .LONELY
-  | .pong _ => s.conn.isSome
+  | .pong _ => s.conn.isSome && !s.readPaused     -- a read-paused transport delivers nothing
   | .pause => s.conn.isSome
   | .resume => s.conn.isSome
   | .stall _ => true
+  | .cpause _ => true
+  | .cresume _ => true
 
 /-! ## call skeletons the bodies above mirror (checked against `Gen.Skel` in `Props.C16`) -/
 
@@ -366,11 +401,22 @@ def expectedSkeleton : List (String × List (String × String)) :=
       [("-", "_contenders.clear"), ("-", "self.stop_listeners"), ("-", "self.stop_pending_connectors"),
        ("-", "self.stop_pending_connections"), ("-", "c.select"), ("if", "KCM"), ("if", "c.send_record"),
        ("-", "_manager.connector_connection_made")]),
+    -- inbound flow control and what `dataReceived` does with a record
+    ("Inbound.use_connection", [("if", "_connection.pauseProducing")]),
+    ("Inbound.stop_using_connection", []),
+    ("Inbound.subchannel_pauseProducing", [("if", "_connection.pauseProducing")]),
+    ("Inbound.subchannel_resumeProducing", [("if", "_connection.resumeProducing")]),
+    ("Inbound.subchannel_stopProducing", [("if", "_connection.resumeProducing")]),
+    ("Inbound.subchannel_closed", [("-", "self.subchannel_stopProducing")]),
+    ("DilatedConnectionProtocol.dataReceived",
+      [("try", "_record.add_and_unframe"), ("try/for/if/if", "KCM"), ("try/for/if/if", "_record.send_record"),
+       ("try/for/else/if", "self.got_kcm"), ("try/for/else/else", "self.got_record"),
+       ("except", "transport.loseConnection")]),
     ("TrafficTimer.begin_timing", [("-", "self.start_timer")]),
     ("TrafficTimer.signal_reconnect", [("-", "self.on_reconnect")]) ]
 
 def skeletonOK : Bool :=
-  expectedSkeleton.all (fun (k, v) => Skel.skeleton k == v)
+  expectedSkeleton.all (fun (k, v) => Skel.skeleton k == v) && Flags.data_received_catches_only_disconnect
 
 /-! ## driver (line protocol)
 
@@ -391,7 +437,7 @@ def showSt (s : St) : String :=
     (fun (c, i, t) => s!"{c}:{i}@{t}"))
   let drops := ";".intercalate (s.drops.map (fun (c, t) => s!"{c}@{t}"))
   let ab := ";".intercalate (s.abandons.map (fun (c, t) => s!"{c}@{t}"))
-  s!"t={s.now} M={Manager.State.name s.mgr} role={role} TT={tt} timer={showOpt s.timer} conn={showOpt s.conn} out={showOpt s.outConn} paused={s.outPaused} pings=[{pings}] nwire={s.wireLog.length} wire=[{wire}] drops=[{drops}] abandons=[{ab}]"
+  s!"t={s.now} M={Manager.State.name s.mgr} role={role} TT={tt} timer={showOpt s.timer} conn={showOpt s.conn} out={showOpt s.outConn} paused={s.outPaused} rp={s.readPaused} cons=[{",".intercalate (s.inPaused.map toString)}] pings=[{pings}] nwire={s.wireLog.length} wire=[{wire}] drops=[{drops}] abandons=[{ab}]"
 
 structure DrvSt where
   T : Nat
@@ -435,6 +481,28 @@ def drvStep (d : DrvSt) (line : String) : DrvSt × String :=
     match n.toNat? with
     | some k => doOp (.stall k)
     | none => (d, "bad-op")
+  | ["cpause", k] =>
+    match k.toNat? with
+    | some i => doOp (.cpause i)
+    | none => (d, "bad-op")
+  -- resume / stop / close of a subchannel's consumer all end in the same Inbound code
+  | ["cresume", k] =>
+    match k.toNat? with
+    | some i => doOp (.cresume i)
+    | none => (d, "bad-op")
+  | ["cstop", k] =>
+    match k.toNat? with
+    | some i => doOp (.cresume i)
+    | none => (d, "bad-op")
+  | ["cclose", k] =>
+    match k.toNat? with
+    | some i => doOp (.cresume i)
+    | none => (d, "bad-op")
+  | ["badseg"] =>
+    -- one TCP segment [record whose handler raises, Pong]: the exception escapes `dataReceived`
+    -- (`Flags.data_received_catches_only_disconnect`), the reactor drops the transport: a loss.  Were
+    -- it swallowed, nothing would happen here and the Pong would stay unparsed in the framer.
+    if Flags.data_received_catches_only_disconnect then doOp .lost else (d, showSt d.s)
   | ["pause"] => doOp .pause
   | ["resume"] => doOp .resume
   | ["adv", n] =>
